@@ -551,7 +551,8 @@ def spec_c07(tier, seed):
                       'Monitor: every subscriber the library drives sees on_subscribe . on_next* . at most one terminal, nothing '
                       'after it; the request-response awaitable is resolved exactly once and never left pending.',
                       [{'frag': True}, {'resp_no_pub': True, 'req_complete': True},
-                       dict({'neighbour_raises': True}, **({'only_roles': ('rr_req', 'rs_req', 'rr_resp', 'rs_resp')} if tier == 'quick' else {}))])
+                       dict({'neighbour_raises': True}, **({'only_roles': ('rr_req', 'rs_req', 'rr_resp', 'rs_resp')} if tier == 'quick' else {})),
+                       {'empty_next': True, 'only_roles': ('rr_req', 'rs_req', 'ch_req', 'ch_resp')}])
 
 
 def spec_c08(tier, seed):
@@ -599,7 +600,7 @@ def spec_c10(tier, seed):
                       'tables are empty once the bystander finished.',
                       [{'frag': True}, {'req_follows': True}, {'resp_no_pub': True, 'req_complete': True}, {'resp_no_pub': True}, {'req_complete': True},
                        {'req_follows': True, 'req_complete': True}],
-                      extra_conds=[Cond('c09_cancel', 'c_cancel_end_to_end', parts=[{'e2e_kind': k} for k in range(2)], timeout=900)],
+                      extra_conds=[Cond('c09_cancel', 'c_cancel_end_to_end', parts=[{'e2e_kind': k} for k in range(3)], timeout=900)],
                       base={'probe_reuse': True})
 
 
@@ -716,6 +717,7 @@ def spec_c17(tier, seed):
         parts.append({'cause': cause, 'rounds': 1})
         parts.append({'cause': cause, 'rounds': 1, 'close_raises': True})
         parts.append({'cause': cause, 'rounds': 1, 'suspend_connect': True})
+        parts.append({'cause': cause, 'rounds': 1 if q else 2, 'frag_in': True, 'idle_max': 1100000})
         if cause in (0, 1):
             parts.append({'cause': cause, 'rounds': 1, 'from_on_close': True})
             parts.append({'cause': cause, 'rounds': 2, 'from_on_close': True, 'pend': [True, True, 0], 'idle_max': 1100000})
@@ -732,7 +734,8 @@ def spec_c17(tier, seed):
                     'on_keepalive_timeout) / explicit reconnect while healthy, with 0..2 pending requests issued before or right at the '
                     'reconnect request, after SYMBOLIC idle and settle times (keep-alive ticks and time-out checks fall inside); 1..3 '
                     'consecutive reconnects. After each: old transport closed, pending requests failed exactly once, next transport '
-                    'connected once, first frame a fresh SETUP (once), next stream id 1, KEEPALIVE flows again, a new request is answered.',
+                    'connected once, first frame a fresh SETUP (once), next stream id 1, KEEPALIVE flows again, a new request is answered; with frag_in the '
+                    'server was half-way through a fragmented request of its own (stream 2) when the old connection ended, and its request on stream 2 of the new connection is served.',
         bounds=['4 causes x {0,1,2 pending: request-response, stream} x 2 moments x old transport close() succeeding / raising; idle/settle times 0..2.5 s each (symbolic integers, us)',
                 '%s consecutive reconnects; %d partitions' % ('1-2' if q else '1-3', len(parts))],
         outside=['more than 3 consecutive reconnects, keep-alive/lifetime configurations other than 1 s / 3 s, providers that fail'],
